@@ -36,19 +36,28 @@ def replay_short(n):
     return bad, str(info), 'C17/short'
 
 
-def replay_firstlen(L):
+def replay_firstlen(L, newmax=None):
     from cardutil import mciipm
     from cardutil.config import config
     data = struct.pack('>I', L) + b'1240' + ref.ref_bitmap([2]) + b'0512345' + b' ' * 40
-    info = mciipm.ipm_info(io.BytesIO(data))
-    mx = config.get('MAX_VBS_RECORD_LENGTH', 6000)
+    old = config.get('MAX_VBS_RECORD_LENGTH', 6000)
+    if newmax:
+        config['MAX_VBS_RECORD_LENGTH'] = newmax
+    try:
+        info = mciipm.ipm_info(io.BytesIO(data))
+    finally:
+        config['MAX_VBS_RECORD_LENGTH'] = old
+    mx = newmax or old
     bad = (info.get('isValidIPM') is not False or not info.get('reason')) if L > mx else info.get('isValidIPM') is not True
     return bad, str(info), 'C17/maxlen'
 
 
-def replay_bit(bit):
+def replay_bit(bit, bit1=True):
     from cardutil import mciipm
-    data = struct.pack('>I', 30) + b'1240' + ref.ref_bitmap([2, bit]) + b'0512345' + b' ' * 40
+    bm = bytearray(ref.ref_bitmap([2, bit]))
+    if not bit1:
+        bm[0] &= 0x7f
+    data = struct.pack('>I', 30) + b'1240' + bytes(bm) + b'0512345' + b' ' * 40
     info = mciipm.ipm_info(io.BytesIO(data))
     bad = info.get('isValidIPM') is not False or not info.get('reason')
     return bad, str(info), 'C17/bit'
